@@ -1,4 +1,5 @@
 import AC.ChainX
+import AC.ChainTie
 /-! # C02 — chain validation accepts exactly the addition chains and lists exactly their ops
 
 Model: `P.isAscending`, `P.ops` (two-pointer and quadratic paths), `P.program`, `P.validate`,
@@ -73,5 +74,32 @@ theorem C02_program_evaluate (c : Chain) (p : List Op) (h : program c = .ok p) :
 /-- non-vacuity: a valid non-ascending chain with a position having two ops -/
 example : IsChain [1,2,4,3,5] ∧ ops [1,2,4,3,5] 4 = [(0,2),(1,3)] :=
   ⟨(isChainB_iff _).1 (by decide), by rw [ops_eq_spec _ _ (by decide)]; decide⟩
+
+/-! ## `Chain.Ops` and `Chain.IsAscending` as TRANSLATED from chain.go
+
+`AC/Gen/ProgramFns.lean` is regenerated from chain.go on every run (harness/cmd/extract/gotr.go);
+`AC/ChainTie.lean` proves the translated functions equal to the model. The operation-listing clause of
+the property, stated over the translated Go function itself: -/
+section Src
+open AC.Gen.Program AC.GoPrim AC.ProgramTie
+
+/-- the translated `Chain.Ops(k)` never panics and never runs out of loop fuel for `k < len(c)`, and
+    returns exactly the pairs `i ≤ j < k` with `c[i] + c[j] = c[k]` in lexicographic order, whether
+    the two-pointer path or the quadratic path is taken -/
+theorem C02_src_ops (c : Chain) (k : Nat) (hk : k < c.length) :
+    chainOps c (k : Int) = some (toGs (opsSpec c k)) ∧
+    (∀ i j, (i, j) ∈ opsSpec c k ↔ i ≤ j ∧ j < k ∧ at' c i + at' c j = at' c k) ∧
+    (opsSpec c k).Pairwise lexLt := by
+  refine ⟨by rw [AC.ChainTie.ops_tie c k hk, ops_eq_spec c k hk], fun i j => ?_, quadOps_sorted c k⟩
+  rw [← ops_eq_spec c k hk]; exact mem_ops c k i j hk
+
+/-- the translated `Chain.IsAscending` never panics and decides "starts at 1 and strictly increasing" -/
+theorem C02_src_isAscending (c : Chain) :
+    ∃ b, chainIsAscending c = some b ∧ (b = true ↔ (c.head? = some 1 ∧ c.Pairwise (· < ·))) :=
+  ⟨_, AC.ChainTie.isAscending_tie c, C02_isAscending_iff c⟩
+
+example : chainOps [1, 2, 4, 3, 5] 4 = some [⟨0, 2⟩, ⟨1, 3⟩] := by decide
+example : chainOps [1, 2, 3, 4, 5] 4 = some [⟨0, 3⟩, ⟨1, 2⟩] := by decide
+end Src
 
 end AC.Props.C02
